@@ -565,6 +565,13 @@ def twin_case(rng):
         if max(float(F(hv) * SI['Angle'][ua]), float(F(hv) * SI['Angle'][ub])) < math.radians(89):
             pool += [g('n4', [v, u1], [hv, ua]), g('n5', [v, u1], [hv, ub])]
             decls += [['gear', 4, 5, 0.9]]
+    if rng.random() < 0.4:
+        # a helical gear whose helix angle is null is still a helical gear: it does not mate with a spur gear
+        n = len(pool)
+        zero = rng.choice([[0.0, 'deg'], [0.0, 'rad'], [0.0, 'arcsec']])
+        pool += [{'type': 'spur', 'name': f'n{n}', 'z': rng.randint(10, 90), 'module': None},
+                 {'type': 'helical', 'name': f'n{n + 1}', 'z': rng.randint(10, 90), 'module': None, 'helix': zero}]
+        decls += [['gear', n, n + 1, 0.9], ['gear', n + 1, n, 0.9]]
     rng.shuffle(decls)
     return {'t': 'rel', 'pool': pool, 'decls': decls}
 
